@@ -772,7 +772,7 @@ func parseIssuer(issuerBytes json.RawMessage) (Issuer, error) {
 //
 // Subject can be defined as a string (subject ID) or single object or array of objects.
 func parseSubject(subjectBytes json.RawMessage) (interface{}, error) {
-	if len(subjectBytes) == 0 {
+	if len(subjectBytes) == 0 || string(subjectBytes) == "null" {
 		return nil, nil
 	}
 
